@@ -139,7 +139,7 @@ func genOrigin(g *prng.R) c06Case {
 			}
 		}
 	}
-	if iriInUpdate && expect == "apply" {
+	if iriInUpdate && (expect == "apply" || expect == "either") {
 		// the default Update needs the whole object: an object named by IRI
 		// only makes it fail by design, after the origin check
 		expect = "either-partial"
